@@ -125,6 +125,7 @@ impl<'a> PGen<'a> {
             3 => numf("0.1"),
             4 => num(-(self.rng.range(1, 9))),
             5 => numf("1_000"),
+            6 => numf(*self.rng.pick(&["1234.5", "1e6", "0.00001", "123456789", "2500", "1e21"])),
             _ => num(self.rng.range(0, 12)),
         }
     }
@@ -374,7 +375,7 @@ impl<'a> PGen<'a> {
                 }
                 _ => bin(*self.rng.pick(&[".==", ".!="]), self.expr(T::Str, d1), self.expr(T::Str, d1)),
             },
-            T::LNum => match self.rng.below(24) {
+            T::LNum => match self.rng.below(25) {
                 0 | 1 => self.leaf(T::LNum),
                 2 => E::List((0..self.rng.below(5)).map(|_| self.expr(T::Num, d1)).collect()),
                 3 => call(id("range"), vec![num(self.rng.range(0, 7))]),
@@ -403,6 +404,17 @@ impl<'a> PGen<'a> {
                     bin("via", self.expr(T::LNum, d1), E::Lam(vec![Arg::Req("x".into()), Arg::Req("i".into())], Box::new(bin("+", id("x"), id("i")))))
                 }
                 19 => call(id("map"), vec![call(id("zip"), vec![self.expr(T::LNum, d1), self.expr(T::LNum, d1)]), lam(&["pr"], idx(id("pr"), num(0)))]),
+                22 => {
+                    // a long list of non-integral numbers (order of floating-point additions,
+                    // size thresholds of fast paths)
+                    let n = *self.rng.pick(&[64i64, 65, 100, 129, 200]);
+                    let f = match self.rng.below(3) {
+                        0 => lam(&["x"], bin("+", bin("*", id("x"), numf("0.1")), numf("0.3"))),
+                        1 => lam(&["x"], bin("/", id("x"), num(7))),
+                        _ => lam(&["x"], call(id("sin"), vec![id("x")])),
+                    };
+                    bin("via", call(id("range"), vec![num(n)]), f)
+                }
                 20 | 21 => {
                     // the same list value reached through a route that allocates nothing new
                     let inner = self.expr(T::LNum, d1);
